@@ -93,6 +93,7 @@ type Spec struct {
 	SortAt      int  `json:"sort_at,omitempty"`      // >0: DepthFirstSort is also called after that many construction calls
 	WriterFails bool `json:"writer_fails,omitempty"` // the output writer returns an error on every second write
 	NGraphs     int  `json:"ngraphs,omitempty"`      // >1: several graphs over the same Tasks run concurrently (eager only)
+	ViaLookup   bool `json:"via_lookup,omitempty"`   // graphs 1.. get the shared tasks through Graph.Task(id) of graph 0 instead of the caller's pointers
 }
 
 // Model - what the history is supposed to mean (from the documented API semantics).
@@ -641,7 +642,17 @@ func Execute(spec *Spec) *Trace {
 		r.names = append(r.names, fmt.Sprintf("g%d_%d", id, gi)+TaskSuffix(spec))
 	}
 	for gi := 0; gi < ng; gi++ {
-		graphs[gi] = r.build(gi, tasks)
+		use := tasks
+		if spec.ViaLookup && gi > 0 {
+			// the documented way to get at a task of another graph: the same Task object must come back
+			use = append([]*dag.Task{}, tasks...)
+			for i := range use {
+				if r.model.InGraph[i] {
+					use[i] = graphs[0].Task(string(tasks[i].ID))
+				}
+			}
+		}
+		graphs[gi] = r.build(gi, use)
 		hs[gi] = &hookState{}
 		hooks.Store(r.names[gi], hs[gi])
 	}
